@@ -16,15 +16,23 @@ def diff_streams(rep, prop, cfg, tier, seed, binary, workdir, kf):
         for f in sorted(os.listdir(cdir)):
             if f.endswith('.ops'):
                 jobs.append(('corpus:' + f, ['exec', 'corpus_' + f[:-4], os.path.join(cdir, f), workdir], 'corpus_' + f[:-4]))
-    for name, qn, tn in cfg['streams']:
+    executors = {}
+    for ent in cfg['streams']:
+        name, qn, tn = ent[:3]
         n = tn if tier == 'thorough' else qn
         jobs.append((name, ['gen', name, str(seed), str(n), workdir], name))
+        if len(ent) > 3:
+            executors[name] = ent[3]
+    for c in cfg.get('corpus_exec', {}):
+        executors['corpus:' + c] = cfg['corpus_exec'][c]
     for label, args, fname in jobs:
         e = dict(os.environ, VERIF_TIER=tier, GOMEMLIMIT='6GiB')
         rc, out = lib.sh([binary] + args, env=e, timeout=6000)
         if rc != 0:
             raise MachineryError(f'harness {label} failed rc={rc}:\n{out[-3000:]}')
         ops_p, impl_p, model_p = (f'{workdir}/{fname}.{x}' for x in ('ops', 'impl', 'model'))
+        if executors.get(label) == 'http2test':
+            lib.exec_http2(cfg['_http2test'], ops_p, impl_p)
         lib.run_driver(ops_p, model_p)
         rd = lambda p: [l for l in open(p).read().split('\n')]
         ops, impl, model = rd(ops_p), rd(impl_p), rd(model_p)
@@ -98,6 +106,11 @@ def run_diff_property(prop, cfg, tier, seed, replay=None):
     ok, out, binary = lib.build_harness(race=cfg.get('race', False))
     if not ok:
         raise MachineryError('harness build failed (the working tree may not compile):\n' + out[-3000:])
+    if cfg.get('http2_ops') or any(len(e) > 3 and e[3] == 'http2test' for e in cfg['streams']):
+        ok, out, tb = lib.build_http2_test(race=cfg.get('race', False))
+        if not ok:
+            raise MachineryError('pkg/http2 test harness build failed:\n' + out[-3000:])
+        cfg = dict(cfg, _http2test=tb)
     workdir = tempfile.mkdtemp(prefix=f'{prop}-', dir=lib.BUILD)
     try:
         if replay:
@@ -106,7 +119,10 @@ def run_diff_property(prop, cfg, tier, seed, replay=None):
             open(opsf, 'w').write(r['op'] + '\n')
             cfg = dict(cfg, streams=[])
             os.makedirs(f'{workdir}/c', exist_ok=True)
-            rc, out = lib.sh([binary, 'exec', 'replay', opsf, workdir])
+            if r['op'].split(' ', 1)[0] in cfg.get('http2_ops', set()):
+                lib.exec_http2(cfg['_http2test'], opsf, f'{workdir}/replay.impl')
+            else:
+                rc, out = lib.sh([binary, 'exec', 'replay', opsf, workdir])
             lib.run_driver(f'{workdir}/replay.ops', f'{workdir}/replay.model')
             i = open(f'{workdir}/replay.impl').read().strip()
             m = lib.canon_model(open(f'{workdir}/replay.model').read().strip())
